@@ -11,7 +11,9 @@
 (***************************************************************************)
 EXTENDS Integers, Sequences, FiniteSets, TLC, Json
 
-CONSTANTS FSet, TSet, EmitOn
+CONSTANTS FSet, TSet, EmitOn,
+          Focus      \* "all", or "fast": smeared drifts of several channels per step through the middle and the top of the
+                     \* band, every profile type (small enough to enumerate on every quick run)
 FQ == 24
 
 VARIABLES cfg, phase, out
@@ -46,8 +48,11 @@ Starts(F) == {-48, -30, -12, 0, 6, 24 * (F \div 2), 24 * (F \div 2) + 9, 24 * (F
 Drifts == {-96, -60, -30, -24, -6, 0, 6, 18, 24, 42, 48, 96}
 Widths == {1, 6, 12, 24, 36, 60, 240}
 
-Init == /\ cfg \in UNION {[F : {F}, T : TSet, asc : BOOLEAN, s0 : Starts(F), d : Drifts, w : Widths, type : Types, smear : BOOLEAN]
-                          : F \in FSet}
+Init == /\ cfg \in (IF Focus = "fast"
+                    THEN [F : {12}, T : {4}, asc : BOOLEAN, s0 : {24 * 6, 24 * 11, 24 * 2 + 9}, d : {-96, -60, 60, 96}, w : {6, 24, 60},
+                          type : Types, smear : {TRUE}]
+                    ELSE UNION {[F : {F}, T : TSet, asc : BOOLEAN, s0 : Starts(F), d : Drifts, w : Widths, type : Types, smear : BOOLEAN]
+                                : F \in FSet})
         /\ phase = "cfg" /\ out = <<>>
 
 Compute == /\ phase = "cfg"
